@@ -13,6 +13,7 @@ for log in sorted(glob.glob('/tmp/sc/*.log')):
     src='/tmp/seed/%s/.seed/%s'%(pid,short)
     if not os.path.exists(src): src='/tmp/seed2/%s/.seed/%s'%(pid,short)
     if not os.path.exists(src): src='/tmp/seed3/%s/.seed/%s'%(pid,short)
+    if not os.path.exists(src): src='/tmp/seed4/%s/.seed/%s'%(pid,short)
     if os.path.exists('/tmp/rbseed/%s'%name): src='/tmp/rbseed/%s'%name
     shutil.copytree(src,dst)
     reb='/tmp/sc/%s.rebased.diff'%name
